@@ -138,6 +138,7 @@ func Run(p payload.Payload, c FCfg) (*Result, error) {
 		return nil, err
 	}
 	f := c.Filter()
+	f.IgnoreTypes = r.Twin.IgnoreTypes
 	r.InEvent = &eventlogger.Event{Type: "t", CreatedAt: created, Formatted: map[string][]byte{"pre": []byte("x")}, Payload: r.In.Value}
 	func() {
 		defer func() {
